@@ -4,6 +4,7 @@ import J5V.Props.C04
 #print axioms J5V.Props.C04.C04_root_roundtrip
 #print axioms J5V.Props.C04.C04_names_order_paths
 #print axioms J5V.Props.C04.C04_norm_int_meaning
+#print axioms J5V.Props.C04.C04_reflected_same_meaning
 #print axioms J5V.Props.C04.C04_norm_int_idem
 #print axioms J5V.Props.C04.C04_string_format_counterexample
 #print axioms J5V.Props.C04.C04_full_counterexample
